@@ -243,6 +243,10 @@ func (g *genCtx) value(t Ty, path string) interface{} {
 		return map[string]interface{}{"u": int64(h % 100)}
 	}
 	if g.p.IsFileType(t.Base) {
+		if g.cfg.AllowNil && h%4 == 1 && strings.ContainsAny(path, "[{") {
+			// a missing file in a collection of files (real files follow it)
+			return nil
+		}
 		name := path
 		content := fmt.Sprintf("%s|%s|%x", g.seed, path, h)
 		return g.files(name, content)
